@@ -21,10 +21,13 @@ From FS Require Export Model.Classify Model.Breaker Model.RateLimiter.
 
 Record retry_cfg := {
   r_fpol : fpolicy; r_abort : list cond; r_max_retries : Z; r_max_duration : Z;
-  r_return_last : bool; r_delay : Z }.
+  r_return_last : bool; r_delay : Z;
+  r_lsn_dur : Z (* how long the policy's own OnFailure listener takes (it does not watch for the cancellation) *) }.
 
 Inductive fb_kind := FBResult (r : Z) | FBError (e : err) | FBEcho (k : Z) | FBWrapErr.
-Record fb_cfg := { fb_fpol : fpolicy; fb_kind_of : fb_kind }.
+(* [fb_lsn_dur]: how long the fallback's own OnFailure listener takes; [fb_dur]: how long the fallback function takes
+   (neither watches for the cancellation) *)
+Record fb_cfg := { fb_fpol : fpolicy; fb_kind_of : fb_kind; fb_lsn_dur : Z; fb_dur : Z }.
 
 Record cache_cfg := { ca_key : Z (* 0 = "" *); ca_conds : list cond }.
 
@@ -422,6 +425,9 @@ Definition wait_fuel (w : world) : nat := 2 + length (w_scopes w) + length (w_bg
 Definition wait (w : world) (dur : Z) (intr : option nat) : bool * world :=
   advance (wait_fuel w) w (Some (w_now w + dur)) intr false.
 
+(* user code that takes [dur] and does not watch for the cancellation: timers fire and background attempts finish meanwhile *)
+Definition pause (w : world) (dur : Z) : world := if 0 <? dur then snd (wait w dur None) else w.
+
 (* ---------------- layers ------------------------------------------------ *)
 
 Definition layer := nat (* copy id *) -> world -> presult * world.
@@ -462,7 +468,7 @@ Definition put_rstate (w : world) (pos : nat) (r : rstate) : world :=
 
 (* retryexecutor.go OnFailure *)
 Definition retry_on_failure (cfg : retry_cfg) (pos : nat) (c : nat) (r : presult) (w : world) : presult * world :=
-  let w0 := ev_with_result w c KPolFailure pos r in
+  let w0 := pause (ev_with_result w c KPolFailure pos r) (r_lsn_dur cfg) in
   let rs := get_rstate w0 pos in
   let failed := rs_failed rs + 1 in
   let max_retries_ex := negb (r_max_retries cfg =? -1) && (r_max_retries cfg <? failed) in
@@ -637,16 +643,19 @@ Definition fallback_layer (pos : nat) (cfg : fb_cfg) (inner : layer) : layer := 
   let '(r, w1) := inner c w in
   let '(r2, w2) :=
     if is_failure (fb_fpol cfg) (pr_out r) then
-      let r' := with_failure r in (r', ev_with_result w1 c KPolFailure pos r')
+      let r' := with_failure r in (r', pause (ev_with_result w1 c KPolFailure pos r') (fb_lsn_dur cfg))
     else let r' := with_done r true true in (r', ev_with_result w1 c KPolSuccess pos r') in
   if pr_succ r2 then (r2, w2)
   else
+    (* the cancellation is looked at when the fallback is about to be applied: after the failure listener *)
     match is_canceled w2 c with
     | Some cr => (cr, w2)
     | None =>
         (* the fallback function sees the failed outcome as the last result *)
         let seen := (pr_res r2, match pr_err r2 with Some e => Some e | None => copy_err w2 c end) in
         let o := fb_apply (fb_kind_of cfg) seen in
+        let w2 := pause w2 (fb_dur cfg) in
+        (* ... and again when the function has returned: a cancellation that arrived meanwhile wins *)
         match is_canceled w2 c with
         | Some cr => (cr, w2)
         | None =>
